@@ -12,6 +12,9 @@ pub fn run(id: &str) -> Result<String, String> {
         "F12" => f12(),
         "F17" => f17(),
         "F24" => f24(),
+        "F25" => f25(),
+        "F26" => f26(),
+        "F27" => f27(),
         _ => Err(format!("unknown witness {id}")),
     }
 }
@@ -193,4 +196,123 @@ fn f24() -> Result<String, String> {
         if r.is_err() { return Err(format!("bcf Reader::read_record PANICS on a record with {what}")); }
     }
     Ok("\"cases\":3".into())
+}
+
+/// F25: bcf lazy samples: a series whose declared type length x sample count overruns the samples buffer, or whose type
+/// descriptor is the "missing" type 0, must be an error when the series are enumerated, not a panic.
+fn f25() -> Result<String, String> {
+    let site = || -> Vec<u8> {
+        let mut v = vec![0u8; 24];
+        v[8] = 1; v[12..16].copy_from_slice(&[0x01, 0x00, 0x80, 0x7f]);
+        v[18..20].copy_from_slice(&1u16.to_le_bytes()); // n_allele = 1
+        v[20] = 1; // n_sample = 1
+        v[23] = 1; // n_fmt = 1
+        v.extend([0x07, 0x17, b'N', 0x00]); v
+    };
+    let rec = |samples: Vec<u8>| -> Vec<u8> { let s = site(); let mut d = (s.len() as u32).to_le_bytes().to_vec(); d.extend((samples.len() as u32).to_le_bytes()); d.extend(s); d.extend(samples); d };
+    let cases: Vec<(&str, Vec<u8>)> = vec![
+        ("a FORMAT series of 1 x Int8[4] with no value bytes", rec(vec![0x11, 0x00, 0x41])),
+        ("a FORMAT series whose type descriptor is 0x00", rec(vec![0x11, 0x00, 0x00])),
+    ];
+    for (what, data) in cases {
+        let r = std::panic::catch_unwind(move || {
+            let mut reader = noodles_bcf::io::Reader::from(&data[..]);
+            let mut record = noodles_bcf::Record::default();
+            if reader.read_record(&mut record).is_err() { return; }
+            if let Ok(samples) = record.samples() { for s in samples.series() { let _ = s; } }
+        });
+        if r.is_err() { return Err(format!("enumerating the FORMAT series of a bcf record with {what} PANICS")); }
+    }
+    Ok("\"cases\":2".into())
+}
+
+/// F26: bcf lazy samples: Series::get / Genotype::iter on a record that was returned Ok must not panic whatever the series bytes are.
+fn f26() -> Result<String, String> {
+    use noodles_vcf::variant::record::samples::series::Value;
+    let header_text = "##fileformat=VCFv4.4\n##FILTER=<ID=PASS,Description=\"All filters passed\">\n##FORMAT=<ID=GT,Number=1,Type=String,Description=\"\">\n##FORMAT=<ID=DP,Number=1,Type=Integer,Description=\"\">\n##FORMAT=<ID=CH,Number=1,Type=Character,Description=\"\">\n##FORMAT=<ID=FL,Number=1,Type=Float,Description=\"\">\n##contig=<ID=sq0>\n#CHROM\tPOS\tID\tREF\tALT\tQUAL\tFILTER\tINFO\tFORMAT\ts0\n";
+    let mut header: noodles_vcf::Header = header_text.parse().map_err(|e| format!("header: {e}"))?;
+    *header.string_maps_mut() = noodles_vcf::header::StringMaps::try_from(&header).map_err(|e| format!("string maps: {e}"))?;
+    let idx = |name: &str| header.string_maps().strings().get_index_of(name).unwrap() as u8;
+    let (gt, dp, ch, fl, pass) = (idx("GT"), idx("DP"), idx("CH"), idx("FL"), idx("PASS"));
+    let site = || -> Vec<u8> {
+        let mut v = vec![0u8; 24];
+        v[8] = 1; v[12..16].copy_from_slice(&[0x01, 0x00, 0x80, 0x7f]);
+        v[18..20].copy_from_slice(&1u16.to_le_bytes());
+        v[20] = 1; v[23] = 1;
+        v.extend([0x07, 0x17, b'N', 0x00]); v
+    };
+    let rec = |samples: Vec<u8>| -> Vec<u8> { let s = site(); let mut d = (s.len() as u32).to_le_bytes().to_vec(); d.extend((samples.len() as u32).to_le_bytes()); d.extend(s); d.extend(samples); d };
+    let cases: Vec<(&str, Vec<u8>)> = vec![
+        ("a Number=1 Integer series holding the Int8 end-of-vector code", rec(vec![0x11, dp, 0x11, 0x81])),
+        ("a Number=1 Integer series holding a reserved Int8 code", rec(vec![0x11, dp, 0x11, 0x83])),
+        ("a Number=1 Integer series stored as Int16[2]", rec(vec![0x11, dp, 0x22, 1, 0, 2, 0])),
+        ("a Number=1 Integer series stored as Int32[2]", rec(vec![0x11, dp, 0x23, 1, 0, 0, 0, 2, 0, 0, 0])),
+        ("a Number=1 Integer series holding the Int16 end-of-vector code", rec(vec![0x11, dp, 0x12, 0x01, 0x80])),
+        ("a Number=1 Float series holding the end-of-vector NaN", rec(vec![0x11, fl, 0x15, 0x02, 0x00, 0x80, 0x7f])),
+        ("a Number=1 Float series stored as Float[2]", rec(vec![0x11, fl, 0x25, 0, 0, 0, 0, 0, 0, 0, 0])),
+        ("a series keyed by a string that is not a FORMAT id", rec(vec![0x11, pass, 0x11, 0x01])),
+        ("a GT series stored as Int16", rec(vec![0x11, gt, 0x12, 0x02, 0x00])),
+        ("a GT series of ploidy 0 under VCF 4.4", rec(vec![0x11, gt, 0x01])),
+        ("a Character series that is not UTF-8", rec(vec![0x11, ch, 0x17, 0xff])),
+        ("a Character series of length 0", rec(vec![0x11, ch, 0x07])),
+        ("an Integer series stored as Float", rec(vec![0x11, dp, 0x15, 0, 0, 0, 0])),
+    ];
+    let n = cases.len();
+    let mut bad: Vec<&str> = Vec::new();
+    for (what, data) in cases {
+        let h = header.clone();
+        let r = std::panic::catch_unwind(move || {
+            let mut reader = noodles_bcf::io::Reader::from(&data[..]);
+            let mut record = noodles_bcf::Record::default();
+            if reader.read_record(&mut record).is_err() { return 0; }
+            let Ok(samples) = record.samples() else { return 0; };
+            let mut touched = 0;
+            for s in samples.series() {
+                let Ok(s) = s else { continue; };
+                for i in [0usize, 1, usize::MAX] {
+                    touched += 1;
+                    if let Some(Some(Ok(Value::Genotype(g)))) = s.get(&h, i) { for a in g.iter() { let _ = a; } }
+                }
+            }
+            touched
+        });
+        match r { Err(_) => bad.push(what), Ok(0) => return Err(format!("witness case did not reach Series::get: {what}")), Ok(_) => {} }
+    }
+    if !bad.is_empty() { return Err(format!("Series::get / Genotype::iter PANICS on a bcf record with: {}", bad.join("; "))); }
+    Ok(format!("\"cases\":{n}"))
+}
+
+/// F27: bcf lazy record: Ids::iter on non-UTF-8 ID bytes and Record::end on a telomeric position (POS = 0, stored as -1) panicked.
+fn f27() -> Result<String, String> {
+    use noodles_vcf::variant::record::Ids as _;
+    let rec = |pos: i32, rlen: i32, id: &[u8]| -> Vec<u8> {
+        let mut v = vec![0u8; 24];
+        v[4..8].copy_from_slice(&pos.to_le_bytes()); v[8..12].copy_from_slice(&rlen.to_le_bytes());
+        v[12..16].copy_from_slice(&[0x01, 0x00, 0x80, 0x7f]);
+        v[18..20].copy_from_slice(&1u16.to_le_bytes());
+        v.push(((id.len() as u8) << 4) | 0x07); v.extend(id);
+        v.extend([0x17, b'N', 0x00]);
+        let mut d = (v.len() as u32).to_le_bytes().to_vec(); d.extend(0u32.to_le_bytes()); d.extend(v); d
+    };
+    let cases: Vec<(&str, Vec<u8>)> = vec![
+        ("an ID that is not UTF-8", rec(0, 1, &[0xff, 0xfe])),
+        ("POS = 0 (stored as -1)", rec(-1, 1, b"")),
+        ("rlen = 0", rec(5, 0, b"")),
+    ];
+    let n = cases.len();
+    let mut bad: Vec<&str> = Vec::new();
+    for (what, data) in cases {
+        let r = std::panic::catch_unwind(move || {
+            let mut reader = noodles_bcf::io::Reader::from(&data[..]);
+            let mut record = noodles_bcf::Record::default();
+            if reader.read_record(&mut record).is_err() { return; }
+            for id in record.ids().iter() { let _ = id; }
+            let _ = record.ids().len();
+            let _ = record.end();
+            let _ = record.variant_start();
+        });
+        if r.is_err() { bad.push(what); }
+    }
+    if !bad.is_empty() { return Err(format!("Record::ids().iter() / Record::end() PANICS on a bcf record with: {}", bad.join("; "))); }
+    Ok(format!("\"cases\":{n}"))
 }
